@@ -413,6 +413,8 @@ package zygo
 // state whether it is already inside that container (a script can make a hash or an array contain
 // itself; without the question the recursion exhausts the stack, and that kills the process, no
 // recover helps). Printers of containers no script can make cyclic are listed.
+//@ func (*PrintState).AddIndent
+//@ C01 ensures a-state-to-print-with: r0 != nil
 //@ cycleguard C01 SexpString | (*PrintState).GetSeen | (*PrintState).SetSeen | (*SexpPair).SexpString, (*SexpArraySelector).SexpString, (*SexpHashSelector).SexpString, (*SexpField).SexpString, (*SexpFunction).SexpString, (*SexpLazyArg).SexpString, (*SexpPointer).SexpString, (*SexpError).SexpString, (*RecordDefn).SexpString, (*SexpInterfaceDecl).SexpString, (*SexpClosureEnv).SexpString
 // mdef: every target slot is filled with a symbol before the value is compiled; the bind
 // instruction hands each one to BindSymbol, which dereferences it
